@@ -460,7 +460,7 @@ fn random_trace(mode: &str, rng: &mut SmallRng, steps: usize) -> Sim {
                     }
                 }
                 if dgrams {
-                    let hostlen = pick(rng, &[0u32, 1, 2, 255, 256, 300]);
+                    let hostlen = pick(rng, &[0u32, 1, 2, 255, 256, 300, 65536, 65539]);
                     let datalen = pick(rng, &[0u32, 1, 2, 3, 4, 5, 100, 65535, 70000]);
                     cands.push((if mode == "dgram" { 4 } else { 2 }, json!({"op": "dg_send", "e": e, "id": pick(rng, &[0u32, 1, 7]), "hostlen": hostlen, "port": pick(rng, &[0, 53, 65535]), "datalen": datalen})));
                     if late_dg != Some(i) || step >= late_from {
